@@ -602,6 +602,9 @@ func (s *storage) getExchangeTargets(oldTable *table, relations []relationID, ma
 			tp, _ := s.registry.ComponentType(rel.component.id)
 			panic(fmt.Sprintf("entity has no component of type %s to set relation target for", tp.Name()))
 		}
+		if !column.isRelation {
+			panic(fmt.Sprintf("component with ID %d is not a relation component", rel.component.id))
+		}
 		if rel.target == targets[column.index] {
 			continue
 		} else if mask != nil {
